@@ -1177,7 +1177,7 @@ func (c *DefaultCtx) Scheme() string {
 
 // Protocol returns the HTTP protocol of request: HTTP/1.1 and HTTP/2.
 func (c *DefaultCtx) Protocol() string {
-	return utils.UnsafeString(c.fasthttp.Request.Header.Protocol())
+	return c.app.getString(c.fasthttp.Request.Header.Protocol())
 }
 
 // Query returns the query string parameter in the url.
